@@ -15,7 +15,7 @@
    directory children apart from files with the same checksum").
    [no_slash]: checksums of file children contain no '/' (true of hex digests). *)
 From Coq Require Import NArith List Bool.
-From DudV Require Import Base.Bytes Base.Json Model.Fs Model.Cache Model.Stage Model.Remote Proofs.CacheDefs Proofs.RemoteProofs.
+From DudV Require Import Base.Bytes Base.Json Model.Fs Model.Cache Model.Stage Model.Remote Proofs.CacheDefs Proofs.RemoteProofs Proofs.FetchRetryProofs.
 Import ListNotations.
 
 Theorem C11_push_closure :
@@ -77,3 +77,33 @@ Theorem C11_scope :
     (forall t, In t sps -> exists s, alookup t idx = Some s).
 Proof. exact C11_scope_single. Qed.
 Print Assumptions C11_scope.
+
+(* a fetch that rclone aborts part-way (any number of times, any cut, any file list), retried
+   until it succeeds: every object of the local cache is read-only, nothing that was there is
+   lost.  [interrupted_copy n files] = the first n listed objects arrive (0644), then the
+   permission fix-up runs on the whole list - the repaired remoteCopy (D25). *)
+Theorem C11_fetch_retry :
+  forall fuel arts (l : list (nat * list bytes)) c remote c',
+    all_ro c ->
+    fetch_arts fuel arts (interruptions l remote c) remote = Ok c' ->
+    all_ro c' /\ cache_le c c'.
+Proof. exact fetch_retry_all_ro. Qed.
+Print Assumptions C11_fetch_retry.
+
+Theorem C11_fetch_retry_cache_ok :
+  forall H fuel arts (l : list (nat * list bytes)) c remote c',
+    cache_ok H c -> cache_ok H remote ->
+    fetch_arts fuel arts (interruptions l remote c) remote = Ok c' -> cache_ok H c' /\ cache_le c c'.
+Proof. exact fetch_retry_cache_ok. Qed.
+Print Assumptions C11_fetch_retry_cache_ok.
+
+(* the behaviour before the repair (no fix-up when rclone fails): the object that arrived before
+   the failure stays 0644 after the successful retry *)
+Theorem C11_fetch_retry_without_fixup_refuted :
+  exists (fuel : nat) (arts : list artifact) (n : nat) (files : list bytes) (c remote c' : cache),
+    all_ro c /\ all_ro remote /\
+    fetch_arts fuel arts (interrupted_copy_old n files remote c) remote = Ok c' /\
+    (exists d o, cget c' d = Some o /\ o_mode o = transfer_mode) /\
+    ~ all_ro c'.
+Proof. exact fetch_retry_old_refuted. Qed.
+Print Assumptions C11_fetch_retry_without_fixup_refuted.
